@@ -247,6 +247,40 @@ FUNC_CASES = [
 ]
 
 
+def _crossed_sharing_cases():
+    """both operands share children, in every pattern over three positions: the answer is that of the unfolded trees, whatever
+    pair of containers was compared before (left leaves a=[1], b=[2]; right leaves c=[1], d=[2] or d=["s"])"""
+    import itertools
+    out = []
+    for dlit, dval in (("[2]", 2), ("[\"s\"]", "s")):
+        setup = f"a := [1]\nb := [2]\nc := [1]\nd := {dlit}"
+        for lp in itertools.product("ab", repeat=3):
+            for rp in itertools.product("cd", repeat=3):
+                want = ["T"]
+                for l, r in zip(lp, rp):
+                    lv_, rv_ = (1 if l == "a" else 2), (1 if r == "c" else dval)
+                    if lv_ == rv_:
+                        continue
+                    want = ["F"] if isinstance(rv_, int) else ["E", ["int", "string"]]
+                    break
+                out.append((setup, f"[{', '.join(lp)}] == [{', '.join(rp)}]", want))
+                out.append((setup, f"{{\"p\": {lp[0]}, \"q\": {lp[1]}, \"r\": {lp[2]}}} == {{\"p\": {rp[0]}, \"q\": {rp[1]}, \"r\": {rp[2]}}}", want))
+    return out
+
+
+_NEST = "fn nest(v, n) {\n    r := v\n    i := 0\n    while i < n {\n        r = [r]\n        i += 1\n    }\n    return r\n}"
+FUNC_CASES += _crossed_sharing_cases() + [
+    # depth is no limit of `==` (well inside what the host stack carries)
+    (_NEST, "nest(1, 1200) == nest(1, 1200)", ["T"]),
+    (_NEST, "nest(1, 1200) == nest(2, 1200)", ["F"]),
+    (_NEST, "nest(1, 1200) != nest(2, 1200)", ["T"]),
+    (_NEST, "nest(1, 1200) == nest(\"a\", 1200)", ["E", ["int", "string"]]),
+    (_NEST, "nest(1, 1200) == nest(1, 1199)", ["E", ["list", "int"]]),
+    (_NEST + "\nx := nest([], 1100)", "x == x", ["T"]),
+    (_NEST + "\nx := nest([], 1100)", "[x, 1] == [x, 2]", ["F"]),
+]
+
+
 class Reporter:
     def __init__(self, ctx, limit=6):
         self.ctx = ctx
